@@ -10,7 +10,9 @@
 
    Events are the atomic sections of the code in ANY interleaving: a datagram processed by
    Listener.packetInput, an Accept, the two steps of an application's UDPSession.Close
-   (EvCloseBegin = `die` closed, EvCloseEnd = Listener.removeSession), Listener.Close. *)
+   (EvCloseBegin = `die` closed, EvCloseEnd = Listener.removeSession), and the steps of
+   Listener.Close (EvListenerClose = l.die closed, EvBacklogClose = one queued session taken
+   from the backlog and its Close begun). *)
 From Coq Require Import ZArith List Bool.
 From KV.Base Require Import Consts.
 From KV.Listener Require Import Listener TableLemmas ListenerProofs FilterProofs C11Lemmas Examples.
@@ -35,7 +37,7 @@ Section C11.
   Notation step := (step addr_eqb sess_new sess_input sess_conv gate_ok).
   Notation run := (run addr_eqb sess_new sess_input sess_conv gate_ok).
   Notation created_log := (created_log addr_eqb sess_new sess_input sess_conv gate_ok).
-  Notation accepted_log := (accepted_log addr_eqb sess_new sess_input sess_conv gate_ok).
+  Notation dequeued_log := (dequeued_log addr_eqb sess_new sess_input sess_conv gate_ok).
   Notation creation_events_at := (creation_events_at addr_eqb sess_new sess_input sess_conv gate_ok).
   Notation fed_seq := (fed_seq addr_eqb gate_ok).
 
@@ -89,20 +91,21 @@ Section C11.
         accepts (l_packet_input l raw a) =
         accepts l ++ (if creation_event l raw a then [(a, next_id l)] else []) /\
         next_id (l_packet_input l raw a) = next_id l + (if creation_event l raw a then 1 else 0)) /\
-    (* everything created is handed out by Accept in creation order exactly once, or is
-       still queued *)
+    (* everything created leaves the queue in creation order exactly once - handed out by
+       Accept, or taken and closed by Listener.Close - or is still queued *)
     (forall evs (l : listener),
-        accepted_log l evs ++ accepts (run l evs) = accepts l ++ created_log l evs) /\
-    (forall evs (l : listener), inv l -> NoDup (map snd (accepted_log l evs ++ accepts (run l evs)))) /\
-    (* a new peer while the backlog is full: dropped with NO state change ... *)
+        dequeued_log l evs ++ accepts (run l evs) = accepts l ++ created_log l evs) /\
+    (forall evs (l : listener), inv l -> NoDup (map snd (dequeued_log l evs ++ accepts (run l evs)))) /\
+    (* a new peer while the backlog is full (no_room l = closed l || backlog_full l): dropped
+       with NO state change ... *)
     (forall (l : listener) raw a,
-        lookup a (sessions l) = None -> backlog_full l = true -> l_packet_input l raw a = l) /\
+        lookup a (sessions l) = None -> no_room l = true -> l_packet_input l raw a = l) /\
     (forall (l : listener) raw a,
         lookup a (sessions l) = None -> creation_event l raw a = false -> l_packet_input l raw a = l) /\
     (* ... and exactly one session, fresh and fed with the creating datagram only, as soon as
        there is room *)
     (forall (l : listener) raw a conv data,
-        wants_session l raw a = Some (conv, data) -> backlog_full l = false ->
+        wants_session l raw a = Some (conv, data) -> no_room l = false ->
         let l' := l_packet_input l raw a in
         creation_event l raw a = true /\
         accepts l' = accepts l ++ [(a, next_id l)] /\
@@ -149,9 +152,9 @@ Section C11.
       parse_conv data = HConv conv sn -> conv <> sess_conv (e_sess e) ->
       let l' := l_packet_input l raw a in
       (sn <> 0 /\ l' = l) \/
-      (sn = 0 /\ backlog_full l = true /\ l' = reset_close addr_eqb l a e /\
+      (sn = 0 /\ no_room l = true /\ l' = reset_close addr_eqb l a e /\
        (e_dead e = false -> lookup a (sessions l') = None)) \/
-      (sn = 0 /\ backlog_full l = false /\
+      (sn = 0 /\ no_room l = false /\
        lookup a (sessions l') = Some (mkE (next_id l) false (sess_input (sess_new conv a) data)) /\
        accepts l' = accepts l ++ [(a, next_id l)] /\
        filter (fun x => negb (addr_eqb a (fst x))) (sessions l') =
@@ -198,7 +201,7 @@ Section C11.
         exists c pre raw post data,
           evs = pre ++ EvPacket raw a :: post /\
           wants_session (run l_empty pre) raw a = Some (c, data) /\
-          backlog_full (run l_empty pre) = false /\
+          no_room (run l_empty pre) = false /\
           e_id e = next_id (run l_empty pre) /\
           sess_conv (e_sess e) = c /\
           e_sess e = fold_left sess_input (fed_seq a c post) (sess_input (sess_new c a) data).
@@ -219,7 +222,7 @@ Section C11.
           (exists pre raw post data,
               evs = pre ++ EvPacket raw a :: post /\
               wants_session (run l0 pre) raw a = Some (c, data) /\
-              backlog_full (run l0 pre) = false /\
+              no_room (run l0 pre) = false /\
               e_id e = next_id (run l0 pre) /\
               e_sess e = fold_left sess_input (fed_seq a c post) (sess_input (sess_new c a) data)).
     Proof.
@@ -325,6 +328,15 @@ Example c11_full_backlog_example :
   lookup Z.eqb 500 (sessions (xpkt l1 (push 7 0) 500)) = Some (mkE 128 false (mkR 7 500 [push 7 0])) /\
   backlog_full (xpkt l1 (push 7 0) 500) = true.
 Proof. exact xfull_backlog. Qed.
+
+(* Listener.Close: queued sessions are closed and removed, the accepted one is still served,
+   nothing is created afterwards *)
+Example c11_closed_listener_example :
+  let l := xrun l_empty xclosing in
+  closed l = true /\ accepts l = [] /\ pending l = [] /\ next_id l = 3 /\
+  sessions l = [(1, mkE 0 false (mkR 7 1 [push 7 0; push 7 1]))] /\
+  dequeued_log Z.eqb r_new r_input xconv xgate l_empty xclosing = [(1, 0); (2, 1); (3, 2)].
+Proof. exact xclosed_listener. Qed.
 
 (* the Close / reset interleaving on the repaired code: the successor stays reachable *)
 Example c11_close_race_repaired :
